@@ -268,3 +268,64 @@ def run(facts, rep):
                 rep.violation('E27.W4-paired-growth', inst, 'Trans::%s performs %s, expected %s' % (fn, norm, wantc), where=b[fn].where())
     except Bad as e:
         rep.indet('E27: Trans outside the recognised fragment: %s' % e)
+
+
+def check_sub(facts, rep):
+    """W5: Trans::sub(indices) composes the transform with the selector S (p x n, S[i, indices[i]] = 1) on the target side
+    and with its transpose on the way back - on *every* path. A path that returns the unmodified transform is right only
+    when `indices` is 0..n as a list; a guard that looks at the length alone (`indices.len() == tgt_dim`) also lets
+    reordered or repeated index lists through (same dimensions, so nothing panics)."""
+    from symex import apply_closure
+    b = facts.bodies.get(T + 'sub')
+    if b is None:
+        rep.indet('E27.W5: Trans::sub not found')
+        return
+    rep.saw(b)
+
+    def dk(t):
+        return sk(t).replace('&mut ', '').replace('&', '').replace('*', '')
+    sel = {}
+    bare = []
+    n = 0
+    for p in SymEx(b, max_paths=4000).run():
+        if p.end != 'return':
+            continue
+        n += 1
+        aps = [e for e in p.calls() if e.name == T + 'append' and len(e.args) == 3]
+        if not aps:
+            conds = [(dk(e.term), e.value) for e in p.branches() if not (e.name or '').startswith('assert:')]
+            bare.append((dk(p.ret), conds))
+            continue
+        for e in aps:
+            for side, a in (('f', e.args[1]), ('b', e.args[2])):
+                t = strip(a)
+                if t[0] == 'call' and t[1].split('::')[-1] == 'from_entries' and len(t[2]) == 2:
+                    shape = dk(t[2][0])
+                    src = strip(t[2][1])
+                    ent = None
+                    if src[0] == 'call' and src[1].split('::')[-1] == 'map' and len(src[2]) == 2:
+                        rr = {dk(q.ret).replace("('item',)", 'IT') for q in apply_closure(src[2][1], [('item',)]) or [] if q.end == 'return'}
+                        if len(rr) == 1:
+                            ent = (dk(src[2][0]), next(iter(rr)))
+                    sel[side] = (shape, ent)
+                else:
+                    sel[side] = (dk(t)[:80], None)
+    inst = 'Trans::sub|appends the selector of `indices` and its transpose on every path'
+    P, N = 'len(arg2)', 'tgt_dim(arg1)'
+    want = {'f': ('(%s, %s)' % (P, N), ('enumerate(iter(arg2))', '(IT.0, IT.1, one())')), 'b': ('(%s, %s)' % (N, P), ('enumerate(iter(arg2))', '(IT.1, IT.0, one())'))}
+    if bare:
+        ret, conds = bare[0]
+        only_len = conds and all(re.match(r'(Eq|Ne|Le|Ge|Lt|Gt)\((%s|%s), (%s|%s)\)$' % (re.escape(P), re.escape(N), re.escape(P), re.escape(N)), c) for c, _ in conds)
+        if only_len and re.match(r'clone\(arg1\)$', ret):
+            rep.violation('E27.W5-sub-selector', inst,
+                          'Trans::sub returns the transform unchanged under %s: the test looks at the length of `indices` only, so a reordered or repeated full-length index list is treated as "keep everything" and forward / backward are those of the original transform' % [c for c, _ in conds],
+                          where=b.where())
+        else:
+            rep.indet('E27.W5: Trans::sub has a path without append: returns %s under %s' % (ret[:80], [c[:60] for c, _ in conds][:3]))
+        return
+    if sel == want:
+        rep.ok('E27.W5-sub-selector', inst, 'f = S (p x n, (i, indices[i])), b = S^T (n x p, (indices[i], i)); %d path(s)' % n)
+    elif set(sel) == {'f', 'b'} and all(v[1] is not None and re.match(r'\(IT\.[01], IT\.[01], one\(\)\)$', v[1][1]) for v in sel.values()):
+        rep.violation('E27.W5-sub-selector', inst, 'Trans::sub appends f = %s, b = %s; expected the selector (i, indices[i]) of shape (p, n) and its transpose' % (sel['f'], sel['b']), where=b.where())
+    else:
+        rep.indet('E27.W5: Trans::sub outside the recognised fragment: %s' % sel)
